@@ -1,1 +1,616 @@
-/- C08: property theorems go here (only property theorems, non-vacuity examples, #print axioms). -/
+import StorageModel.Properties.C07
+/-
+  C08 — Entity events: exactly once per committed change, none for undone work.
+
+  "For every committed create, update or delete, each listener registered for that change type on
+  the entity's store is invoked exactly once, after the commit, with the entity's final state
+  (create, update) or last state (delete); a change to a child-store entity additionally produces
+  exactly one event on the parent store, while plain parent entities produce none on the child
+  store. Work that is rolled back or rejected produces no events, and commit actions and
+  transaction-complete listeners run once per committed transaction."
+
+  Model: the same as C07's (Tx/Store.lean: EntityChangeState, fireEvents = every constraint's
+  ProcessPreCommit, then processPostCommit queued with tx.OnCommit; fireParentEvent / initFromChild;
+  DeleteById's flow list with MarkParentEvent; Tx/Db.lean: the three listener adapters (`deliver`),
+  processPostCommit, handleCommit, tx-complete listeners, in OnCommit order).  All theorems are about
+  the return table regenerated from the code (`FromCode`).
+
+  Order: deliveries are compared per listener registration (in order); nothing is claimed about the
+  interleaving of asynchronous deliveries.  Commit actions belong to the MutateContext: a context
+  used for a second transaction runs the actions registered during the first one again
+  (`commit_actions_once` is stated per context-and-transaction).
+-/
+namespace StorageModel.Properties.C08
+open StorageModel.Tx StorageModel.Tx.Spec StorageModel.Properties.C07
+
+theorem table_is_expected : Generated.crudReturns = expectedReturns := C07.table_is_expected
+theorem delivery_is_expected :
+    Generated.deliveryFlags.all (·.2) = true ∧ Generated.deliveryFlags.length = 15 ∧
+    Generated.adapterShapes = ["entityListenerAdapter", "entityFunctionListenerAdapter", "untypedEventListenerWrapper"].map expectedAdapter :=
+  C07.delivery_is_expected
+
+/-- the entity handed to a listener: final state for create / update, last state for delete -/
+def payload (fl : Flow) : Option EntView :=
+  match fl.kind with
+  | .deleted => fl.initial
+  | _ => fl.final
+
+/-- what listener registration `reg` on store σ received through the `slot`-th of its change types:
+    (asynchronously?, change kind, entity), in order -/
+def deliveriesTo (σ : StoreId) (reg slot : Nat) : List Fired → List (Bool × Kind × Option EntView)
+  | [] => []
+  | .listener σ' r s a k e :: rest =>
+    if σ' = σ ∧ r = reg ∧ s = slot then (a, k, e) :: deliveriesTo σ reg slot rest
+    else deliveriesTo σ reg slot rest
+  | _ :: rest => deliveriesTo σ reg slot rest
+
+/-- the ProcessPostCommit calls constraint registration `reg` on store σ received -/
+def postsTo (σ : StoreId) (reg : Nat) : List Fired → List Flow
+  | [] => []
+  | .post σ' r fl :: rest => if σ' = σ ∧ r = reg then fl :: postsTo σ reg rest else postsTo σ reg rest
+  | _ :: rest => postsTo σ reg rest
+
+theorem deliveriesTo_append (σ : StoreId) (reg slot : Nat) (a b : List Fired) :
+    deliveriesTo σ reg slot (a ++ b) = deliveriesTo σ reg slot a ++ deliveriesTo σ reg slot b := by
+  induction a with
+  | nil => rfl
+  | cons x rest ih =>
+    cases x with
+    | listener σ' r s a k e =>
+      simp only [List.cons_append, deliveriesTo]
+      split <;> simp [ih]
+    | post _ _ _ => simpa [deliveriesTo] using ih
+    | commitActions _ => simpa [deliveriesTo] using ih
+    | txComplete _ => simpa [deliveriesTo] using ih
+
+theorem postsTo_append (σ : StoreId) (reg : Nat) (a b : List Fired) :
+    postsTo σ reg (a ++ b) = postsTo σ reg a ++ postsTo σ reg b := by
+  induction a with
+  | nil => rfl
+  | cons x rest ih =>
+    cases x with
+    | post σ' r fl =>
+      simp only [List.cons_append, postsTo]
+      split <;> simp [ih]
+    | listener _ _ _ _ _ _ => simpa [postsTo] using ih
+    | commitActions _ => simpa [postsTo] using ih
+    | txComplete _ => simpa [postsTo] using ih
+
+/-- one listener adapter, one flow: the slot fires iff its change type has the flow's kind -/
+theorem deliver_sel (fl : Flow) (reg slot : Nat) (k : Nat) (types : List EvType) :
+    deliveriesTo fl.store reg slot (deliver fl reg (indexFrom k types)) =
+      if k ≤ slot then
+        (match types[slot - k]? with
+          | some t => if t.kind = fl.kind then [(t.async, fl.kind, payload fl)] else []
+          | none => [])
+      else [] := by
+  induction types generalizing k with
+  | nil => simp [indexFrom, deliver, deliveriesTo]
+  | cons t rest ih =>
+    simp only [indexFrom, deliver]
+    by_cases hk : t.kind = fl.kind
+    · simp only [hk, if_true, deliveriesTo, true_and]
+      rw [ih (k + 1)]
+      by_cases hks : k = slot
+      · subst hks
+        have h0 : ¬ k + 1 ≤ k := by omega
+        simp only [Nat.le_refl, if_true, Nat.sub_self, List.getElem?_cons_zero, hk, h0, if_false]
+        rfl
+      · simp only [hks, if_false]
+        by_cases hle : k ≤ slot
+        · have h1 : k + 1 ≤ slot := by omega
+          have h2 : slot - k = (slot - (k + 1)) + 1 := by omega
+          simp [hle, h1, h2]
+        · have h1 : ¬ k + 1 ≤ slot := by omega
+          simp [hle, h1]
+    · simp only [hk, if_false]
+      rw [ih (k + 1)]
+      by_cases hks : k = slot
+      · subst hks
+        have h0 : ¬ k + 1 ≤ k := by omega
+        simp [hk, h0]
+      · by_cases hle : k ≤ slot
+        · have h1 : k + 1 ≤ slot := by omega
+          have h2 : slot - k = (slot - (k + 1)) + 1 := by omega
+          simp [hle, h1, h2]
+        · have h1 : ¬ k + 1 ≤ slot := by omega
+          simp [hle, h1]
+
+theorem deliver_other_reg (σ : StoreId) (fl : Flow) (reg reg' slot : Nat) (h : reg' ≠ reg) (ps : List (Nat × EvType)) :
+    deliveriesTo σ reg slot (deliver fl reg' ps) = [] := by
+  induction ps with
+  | nil => rfl
+  | cons p rest ih =>
+    obtain ⟨s, t⟩ := p
+    simp only [deliver]
+    split
+    · simp [deliveriesTo, h, ih]
+    · exact ih
+
+theorem deliver_other_store (σ : StoreId) (fl : Flow) (reg reg' slot : Nat) (h : fl.store ≠ σ) (ps : List (Nat × EvType)) :
+    deliveriesTo σ reg slot (deliver fl reg' ps) = [] := by
+  induction ps with
+  | nil => rfl
+  | cons p rest ih =>
+    obtain ⟨s, t⟩ := p
+    simp only [deliver]
+    split
+    · simp [deliveriesTo, h, ih]
+    · exact ih
+
+/-- processPostCommit of one flow, seen from one listener slot -/
+theorem postCommit_sel (σ : StoreId) (fl : Flow) (reg slot : Nat) (k : Nat) (l : List Reg) :
+    deliveriesTo σ reg slot (postCommit fl (indexFrom k l)) =
+      if fl.store = σ ∧ k ≤ reg then
+        (match l[reg - k]? with
+          | some (.listener _ types) => deliveriesTo σ reg slot (deliver fl reg (indexed types))
+          | _ => [])
+      else [] := by
+  induction l generalizing k with
+  | nil => simp [indexFrom, postCommit, deliveriesTo]
+  | cons r rest ih =>
+    simp only [indexFrom]
+    by_cases hs : fl.store = σ
+    · cases r with
+      | listener st types =>
+        simp only [postCommit, deliveriesTo_append]
+        rw [ih (k + 1)]
+        by_cases hkr : k = reg
+        · subst hkr
+          have h1 : ¬ k + 1 ≤ k := by omega
+          simp [hs, h1]
+        · rw [deliver_other_reg σ fl reg k slot hkr]
+          by_cases hle : k ≤ reg
+          · have h1 : k + 1 ≤ reg := by omega
+            have h2 : reg - k = (reg - (k + 1)) + 1 := by omega
+            simp [hs, hle, h1, h2]
+          · have h1 : ¬ k + 1 ≤ reg := by omega
+            simp [hle, h1]
+      | constraint ty vs =>
+        simp only [postCommit, deliveriesTo]
+        rw [ih (k + 1)]
+        by_cases hkr : k = reg
+        · subst hkr
+          have h1 : ¬ k + 1 ≤ k := by omega
+          simp [hs, h1]
+        · by_cases hle : k ≤ reg
+          · have h1 : k + 1 ≤ reg := by omega
+            have h2 : reg - k = (reg - (k + 1)) + 1 := by omega
+            simp [hs, hle, h1, h2]
+          · have h1 : ¬ k + 1 ≤ reg := by omega
+            simp [hle, h1]
+    · cases r with
+      | listener st types =>
+        simp only [postCommit, deliveriesTo_append]
+        rw [ih (k + 1), deliver_other_store σ fl reg k slot hs]
+        simp [hs]
+      | constraint ty vs =>
+        simp only [postCommit, deliveriesTo]
+        rw [ih (k + 1)]
+        simp [hs]
+
+theorem deliveriesTo_commitList (env : Env) (ctx : Ctx) (flows : List Flow) (txc : Bool) (σ : StoreId) (reg slot : Nat) :
+    deliveriesTo σ reg slot (commitList env ctx flows txc) =
+      flows.flatMap (fun fl => deliveriesTo σ reg slot (postCommit fl (indexed (env.regs fl.store)))) := by
+  unfold commitList
+  rw [deliveriesTo_append, deliveriesTo_append]
+  have h1 : deliveriesTo σ reg slot [Fired.commitActions ctx.commitActions] = [] := rfl
+  have h2 : deliveriesTo σ reg slot (if txc = true then List.map Fired.txComplete (List.range env.txListeners) else []) = [] := by
+    split
+    · generalize List.range env.txListeners = l
+      induction l with
+      | nil => rfl
+      | cons a t ih => simpa [deliveriesTo] using ih
+    · rfl
+  rw [h1, h2]
+  simp only [List.nil_append, List.append_nil]
+  induction flows with
+  | nil => rfl
+  | cons fl rest ih => simp [List.flatMap_cons, deliveriesTo_append, ih]
+
+/-- **C08, exactly once** (all transactions that hand errors on, Update and Batch, all registrations,
+    every registration style — the style only changes how the callback renders the entity): when the
+    transaction commits, the listener registered at position `reg` on store σ receives, through the
+    `slot`-th change type `t` it was registered with, exactly the committed changes of kind `t.kind`
+    on σ — each once, in order, synchronously or asynchronously as `t` says, each with the entity's
+    final (create, update) or last (delete) state.  The changes on the parent store include the
+    parent events derived from child-store changes. -/
+theorem events_exactly_once (env : Env) (h : FromCode env) (db : Db) (prevCtx : Ctx) (tx : TxSpec)
+    (hw : tx.wellBehaved) (hok : (runTx env db prevCtx tx).res = .ok)
+    (σ : StoreId) (reg slot : Nat) (style : Style) (types : List EvType) (t : EvType)
+    (hreg : (env.regs σ)[reg]? = some (.listener style types)) (hslot : types[slot]? = some t) :
+    deliveriesTo σ reg slot (runTx env db prevCtx tx).fired =
+      ((txFlows env db prevCtx tx).filter (fun fl => fl.store = σ ∧ fl.kind = t.kind)).map
+        (fun fl => (t.async, fl.kind, payload fl)) := by
+  have ha := runTx_agree env h.expected db prevCtx tx hw
+  rw [ha.fired_ok hok, deliveriesTo_commitList]
+  generalize txFlows env db prevCtx tx = flows
+  induction flows with
+  | nil => rfl
+  | cons fl rest ih =>
+    rw [List.flatMap_cons, ih]
+    unfold indexed
+    rw [postCommit_sel]
+    by_cases hs : fl.store = σ
+    · subst hs
+      simp only [true_and, Nat.zero_le, if_true, Nat.sub_zero, hreg]
+      unfold indexed
+      rw [deliver_sel]
+      simp only [Nat.zero_le, if_true, Nat.sub_zero, hslot, List.filter_cons]
+      by_cases hk : t.kind = fl.kind
+      · simp [hk]
+      · have hk' : ¬ fl.kind = t.kind := fun e => hk e.symm
+        simp [hk, hk']
+    · simp [hs]
+
+/-- the number of deliveries = the number of changes (the counting form of "exactly once") -/
+theorem events_count (env : Env) (h : FromCode env) (db : Db) (prevCtx : Ctx) (tx : TxSpec)
+    (hw : tx.wellBehaved) (hok : (runTx env db prevCtx tx).res = .ok)
+    (σ : StoreId) (reg slot : Nat) (style : Style) (types : List EvType) (t : EvType)
+    (hreg : (env.regs σ)[reg]? = some (.listener style types)) (hslot : types[slot]? = some t) :
+    (deliveriesTo σ reg slot (runTx env db prevCtx tx).fired).length =
+      ((txFlows env db prevCtx tx).filter (fun fl => fl.store = σ ∧ fl.kind = t.kind)).length := by
+  rw [events_exactly_once env h db prevCtx tx hw hok σ reg slot style types t hreg hslot, List.length_map]
+
+theorem postCommit_posts (σ : StoreId) (fl : Flow) (reg : Nat) (k : Nat) (l : List Reg) :
+    postsTo σ reg (postCommit fl (indexFrom k l)) =
+      if fl.store = σ ∧ k ≤ reg then
+        (match l[reg - k]? with
+          | some (.constraint _ _) => [fl]
+          | _ => [])
+      else [] := by
+  have hdel : ∀ (i : Nat) (ps : List (Nat × EvType)), postsTo σ reg (deliver fl i ps) = [] := by
+    intro i ps
+    induction ps with
+    | nil => rfl
+    | cons p rest ih =>
+      obtain ⟨s, t⟩ := p
+      simp only [deliver]
+      split
+      · simpa [postsTo] using ih
+      · exact ih
+  induction l generalizing k with
+  | nil => simp [indexFrom, postCommit, postsTo]
+  | cons r rest ih =>
+    simp only [indexFrom]
+    cases r with
+    | listener st types =>
+      simp only [postCommit, postsTo_append, hdel, List.nil_append]
+      rw [ih (k + 1)]
+      by_cases hkr : k = reg
+      · subst hkr
+        have h1 : ¬ k + 1 ≤ k := by omega
+        simp [h1]
+      · by_cases hle : k ≤ reg
+        · have h1 : k + 1 ≤ reg := by omega
+          have h2 : reg - k = (reg - (k + 1)) + 1 := by omega
+          simp [hle, h1, h2]
+        · have h1 : ¬ k + 1 ≤ reg := by omega
+          simp [hle, h1]
+    | constraint ty vs =>
+      simp only [postCommit, postsTo]
+      rw [ih (k + 1)]
+      by_cases hs : fl.store = σ
+      · by_cases hkr : k = reg
+        · subst hkr
+          have h1 : ¬ k + 1 ≤ k := by omega
+          simp [hs, h1]
+        · by_cases hle : k ≤ reg
+          · have h1 : k + 1 ≤ reg := by omega
+            have h2 : reg - k = (reg - (k + 1)) + 1 := by omega
+            simp [hs, hle, h1, h2, hkr]
+          · have h1 : ¬ k + 1 ≤ reg := by omega
+            simp [hle, h1, hs, hkr]
+      · simp [hs]
+
+/-- **C08, constraints** (AddEntityConstraint / AddUntypedEntityConstraint): ProcessPostCommit of the
+    constraint at position `reg` on store σ runs exactly once for every committed change on σ. -/
+theorem constraint_posts_exactly_once (env : Env) (h : FromCode env) (db : Db) (prevCtx : Ctx) (tx : TxSpec)
+    (hw : tx.wellBehaved) (hok : (runTx env db prevCtx tx).res = .ok)
+    (σ : StoreId) (reg : Nat) (typed : Bool) (vetoes : List (Kind × String))
+    (hreg : (env.regs σ)[reg]? = some (.constraint typed vetoes)) :
+    postsTo σ reg (runTx env db prevCtx tx).fired = (txFlows env db prevCtx tx).filter (fun fl => fl.store = σ) := by
+  have ha := runTx_agree env h.expected db prevCtx tx hw
+  rw [ha.fired_ok hok]
+  unfold commitList
+  rw [postsTo_append, postsTo_append]
+  have h1 : postsTo σ reg [Fired.commitActions (specTx env db prevCtx tx).ctx.commitActions] = [] := rfl
+  have h2 : postsTo σ reg (if (tx.mode == Mode.update) = true then List.map Fired.txComplete (List.range env.txListeners) else []) = [] := by
+    split
+    · generalize List.range env.txListeners = l
+      induction l with
+      | nil => rfl
+      | cons a t ih => simpa [postsTo] using ih
+    · rfl
+  rw [h1, h2]
+  simp only [List.nil_append, List.append_nil]
+  generalize txFlows env db prevCtx tx = flows
+  induction flows with
+  | nil => rfl
+  | cons fl rest ih =>
+    rw [List.flatMap_cons, postsTo_append, ih]
+    unfold indexed
+    rw [postCommit_posts]
+    by_cases hs : fl.store = σ
+    · subst hs
+      simp [hreg]
+    · simp [hs]
+
+/-! ## what the announced changes are -/
+
+/-- the flows of a single accepted operation, as the spec lists them -/
+theorem op_flows (env : Env) (h : FromCode env) (fault : Fault) (o : Op) (st : TxSt)
+    (hok : (runOp env fault o st).2 = .ok) :
+    (runOp env fault o st).1.queue = st.queue ++ (specOp env fault o st.db).flows.map .post ∧
+    (runOp env fault o st).1.db = (specOp env fault o st.db).db := by
+  obtain ⟨_, _, hrest⟩ := runOp_refines env h.expected fault o st
+  obtain ⟨h1, h2, _, _⟩ := hrest hok
+  exact ⟨h2, h1⟩
+
+/-- **C08, final state** (create): every flow queued by an accepted create carries, as final state,
+    the entity as FindById returns it right after the operation (on the flow's own store: the parent
+    view for the parent event), and that is what listeners are handed. -/
+theorem events_final_state_create (env : Env) (h : FromCode env) (fault : Fault) (σ : StoreId) (id : String) (f : PFields)
+    (rank : String) (st : TxSt) (hok : (runOp env fault (.create σ id f rank) st).2 = .ok) :
+    ∀ fl ∈ (specOp env fault (.create σ id f rank) st.db).flows,
+      fl.id = id ∧ fl.kind = .created ∧
+      payload fl = view fl.store (runOp env fault (.create σ id f rank) st).1.db id ∧ (payload fl).isSome = true := by
+  obtain ⟨_, hiff, hrest⟩ := runOp_refines env h.expected fault (.create σ id f rank) st
+  have hacc := hiff.mp hok
+  obtain ⟨hdb, _⟩ := hrest hok
+  rw [hdb]
+  obtain ⟨e1, e2⟩ := specCreate_accepted env fault σ id f rank st.db hacc
+  simp only [specOp, e1, e2]
+  intro fl hfl
+  cases σ with
+  | P =>
+    simp only [writeFlows, List.mem_singleton] at hfl
+    subst hfl
+    simp [payload, view_put_same]
+  | C =>
+    simp only [writeFlows, List.mem_cons, List.mem_nil_iff, or_false] at hfl
+    rcases hfl with rfl | rfl <;> simp [payload, view_put_same, writtenEnt]
+
+/-- **C08, final state** (update): the same for an accepted update; the flow also carries the state
+    before the update. -/
+theorem events_final_state_update (env : Env) (h : FromCode env) (fault : Fault) (σ : StoreId) (id : String) (f : PFields)
+    (rank : String) (st : TxSt) (hok : (runOp env fault (.update σ id f rank) st).2 = .ok) :
+    ∀ fl ∈ (specOp env fault (.update σ id f rank) st.db).flows,
+      fl.id = id ∧ fl.kind = .updated ∧
+      payload fl = view fl.store (runOp env fault (.update σ id f rank) st).1.db id ∧
+      fl.initial = view fl.store st.db id := by
+  obtain ⟨_, hiff, hrest⟩ := runOp_refines env h.expected fault (.update σ id f rank) st
+  have hacc := hiff.mp hok
+  obtain ⟨hdb, _⟩ := hrest hok
+  rw [hdb]
+  obtain ⟨_, e1, e2⟩ := specUpdate_accepted env fault σ id f rank st.db hacc
+  simp only [specOp, e1, e2]
+  intro fl hfl
+  cases hs : updateStore σ st.db id with
+  | P =>
+    rw [hs] at hfl
+    simp only [writeFlows, List.mem_singleton] at hfl
+    subst hfl
+    simp [payload]
+  | C =>
+    rw [hs] at hfl
+    simp only [writeFlows, List.mem_cons, List.mem_nil_iff, or_false] at hfl
+    rcases hfl with rfl | rfl <;> simp [payload]
+
+/-- **C08, last state** (delete): every flow queued by an accepted delete carries the entity as it was
+    before the delete, and the entity is gone afterwards. -/
+theorem events_last_state_delete (env : Env) (h : FromCode env) (fault : Fault) (σ : StoreId) (id : String) (st : TxSt)
+    (hok : (runOp env fault (.delete σ id) st).2 = .ok) :
+    (∀ fl ∈ (specOp env fault (.delete σ id) st.db).flows,
+      fl.id = id ∧ fl.kind = .deleted ∧ payload fl = view fl.store st.db id ∧ (payload fl).isSome = true) ∧
+    (runOp env fault (.delete σ id) st).1.db.get id = none := by
+  obtain ⟨_, hiff, hrest⟩ := runOp_refines env h.expected fault (.delete σ id) st
+  have hacc := hiff.mp hok
+  obtain ⟨hdb, _⟩ := hrest hok
+  rw [hdb]
+  obtain ⟨⟨e, hg⟩, e1, e2⟩ := specDelete_accepted env fault id st.db hacc
+  simp only [specOp, e1, e2]
+  refine ⟨?_, Db.get_del_same _ _⟩
+  intro fl hfl
+  unfold delFlows view at hfl
+  simp only [hg] at hfl
+  cases hc : e.child with
+  | none =>
+    simp only [hc, Option.map_none, List.mem_singleton] at hfl
+    subst hfl
+    simp [payload, view, hg, deleteFlow]
+  | some r =>
+    simp only [hc, Option.map_some, List.mem_cons, List.mem_nil_iff, or_false] at hfl
+    rcases hfl with rfl | rfl <;> simp [payload, view, hg, hc, deleteFlow]
+
+/-- **C08, a change to a child-store entity produces exactly one event on the parent store, marked as
+    parent event, and one on the child store** — for a create through the child store, an update
+    (through either store) of an entity with child data, a delete (through either store) of an entity
+    with child data. -/
+theorem child_change_parent_event (env : Env) (h : FromCode env) (fault : Fault) (o : Op) (st : TxSt)
+    (hok : (runOp env fault o st).2 = .ok)
+    (hchild : match o with
+      | .create σ _ _ _ => σ = .C
+      | .update σ id _ _ => updateStore σ st.db id = .C
+      | .delete _ id => hasChild st.db id = true
+      | .deleteWhere _ _ => False) :
+    ∃ pf cf, (specOp env fault o st.db).flows = [pf, cf] ∧
+      pf.store = .P ∧ pf.parentEvent = true ∧ cf.store = .C ∧ cf.parentEvent = false ∧
+      pf.kind = cf.kind ∧ pf.id = cf.id ∧
+      (runOp env fault o st).1.queue = st.queue ++ [.post pf, .post cf] := by
+  obtain ⟨_, hiff, hrest⟩ := runOp_refines env h.expected fault o st
+  have hacc := hiff.mp hok
+  obtain ⟨_, hq, _⟩ := hrest hok
+  rw [hq]
+  cases o with
+  | create σ id f rank =>
+    simp only at hchild
+    subst hchild
+    obtain ⟨_, e2⟩ := specCreate_accepted env fault .C id f rank st.db hacc
+    simp only [specOp, e2, writeFlows]
+    exact ⟨_, _, rfl, rfl, rfl, rfl, rfl, rfl, rfl, rfl⟩
+  | update σ id f rank =>
+    simp only at hchild
+    obtain ⟨_, _, e2⟩ := specUpdate_accepted env fault σ id f rank st.db hacc
+    simp only [specOp, e2, hchild, writeFlows]
+    exact ⟨_, _, rfl, rfl, rfl, rfl, rfl, rfl, rfl, rfl⟩
+  | delete σ id =>
+    simp only at hchild
+    obtain ⟨⟨e, hg⟩, _, e2⟩ := specDelete_accepted env fault id st.db hacc
+    unfold hasChild at hchild
+    simp only [hg, Option.bind_some] at hchild
+    obtain ⟨r, hr⟩ := Option.isSome_iff_exists.mp hchild
+    simp only [specOp, e2]
+    unfold delFlows view
+    simp only [hg, hr, Option.map_some]
+    exact ⟨_, _, rfl, rfl, rfl, rfl, rfl, rfl, rfl, rfl⟩
+  | deleteWhere σ q => exact absurd hchild (by simp)
+
+/-- **C08, plain parent entities produce no event on the child store**: a create through the parent
+    store, an update or delete of an entity without child data queue exactly one flow, on the parent
+    store, not marked as parent event. -/
+theorem plain_parent_no_child_event (env : Env) (h : FromCode env) (fault : Fault) (o : Op) (st : TxSt)
+    (hok : (runOp env fault o st).2 = .ok)
+    (hplain : match o with
+      | .create σ _ _ _ => σ = .P
+      | .update σ id _ _ => updateStore σ st.db id = .P
+      | .delete _ id => hasChild st.db id = false
+      | .deleteWhere _ _ => False) :
+    ∃ pf, (specOp env fault o st.db).flows = [pf] ∧ pf.store = .P ∧ pf.parentEvent = false ∧
+      (runOp env fault o st).1.queue = st.queue ++ [.post pf] := by
+  obtain ⟨_, hiff, hrest⟩ := runOp_refines env h.expected fault o st
+  have hacc := hiff.mp hok
+  obtain ⟨_, hq, _⟩ := hrest hok
+  rw [hq]
+  cases o with
+  | create σ id f rank =>
+    simp only at hplain
+    subst hplain
+    obtain ⟨_, e2⟩ := specCreate_accepted env fault .P id f rank st.db hacc
+    simp only [specOp, e2, writeFlows]
+    exact ⟨_, rfl, rfl, rfl, rfl⟩
+  | update σ id f rank =>
+    simp only at hplain
+    obtain ⟨_, _, e2⟩ := specUpdate_accepted env fault σ id f rank st.db hacc
+    simp only [specOp, e2, hplain, writeFlows]
+    exact ⟨_, rfl, rfl, rfl, rfl⟩
+  | delete σ id =>
+    simp only at hplain
+    obtain ⟨⟨e, hg⟩, _, e2⟩ := specDelete_accepted env fault id st.db hacc
+    unfold hasChild at hplain
+    simp only [hg, Option.bind_some] at hplain
+    have hr : e.child = none := by
+      cases hc : e.child with
+      | none => rfl
+      | some r => simp [hc] at hplain
+    simp only [specOp, e2]
+    unfold delFlows view
+    simp only [hg, hr, Option.map_none]
+    exact ⟨_, rfl, rfl, rfl, rfl⟩
+  | deleteWhere σ q => exact absurd hplain (by simp)
+
+/-! ## nothing for undone work; commit actions and tx-complete listeners once -/
+
+/-- **C08, work that is rolled back produces no events** (any body, any table): no listener, no
+    constraint post-commit, no commit action, no tx-complete listener. -/
+theorem rolled_back_no_events (env : Env) (db : Db) (prevCtx : Ctx) (tx : TxSpec)
+    (hne : (runTx env db prevCtx tx).res ≠ .ok) : (runTx env db prevCtx tx).fired = [] :=
+  (tx_atomic env db prevCtx tx hne).2
+
+/-- a rejected operation queues nothing that could be delivered later: the transaction it is in fails
+    (`C07.tx_error_surfaces`), and within the operation nothing is queued after the veto -/
+theorem rejected_op_tx_fails (env : Env) (h : FromCode env) (db : Db) (ctx : Ctx) (pre post : List Step) (o : Op)
+    (fault : Fault) (hp : Propagating (pre ++ .op o fault false :: post))
+    (hrej : OpFails env (specBody env db ctx pre).db o) :
+    (dbUpdate env db ctx (pre ++ .op o fault false :: post)).fired = [] := by
+  have hne := rejected_operation_surfaces env h db ctx pre post o fault hp hrej
+  simp only [dbUpdate] at hne ⊢
+  cases ha : (attempt env true db ctx (pre ++ .op o fault false :: post)).res with
+  | ok => simp [ha, commit] at hne
+  | err e => simp [rollback]
+
+def commitActionRuns : List Fired → List (List Nat)
+  | [] => []
+  | .commitActions tags :: rest => tags :: commitActionRuns rest
+  | _ :: rest => commitActionRuns rest
+
+def txCompleteRuns : List Fired → List Nat
+  | [] => []
+  | .txComplete i :: rest => i :: txCompleteRuns rest
+  | _ :: rest => txCompleteRuns rest
+
+theorem commitActionRuns_append (a b : List Fired) : commitActionRuns (a ++ b) = commitActionRuns a ++ commitActionRuns b := by
+  induction a with
+  | nil => rfl
+  | cons x rest ih => cases x <;> simp [commitActionRuns, ih]
+
+theorem txCompleteRuns_append (a b : List Fired) : txCompleteRuns (a ++ b) = txCompleteRuns a ++ txCompleteRuns b := by
+  induction a with
+  | nil => rfl
+  | cons x rest ih => cases x <;> simp [txCompleteRuns, ih]
+
+theorem postCommit_no_actions (fl : Flow) (ps : List (Nat × Reg)) :
+    commitActionRuns (postCommit fl ps) = [] ∧ txCompleteRuns (postCommit fl ps) = [] := by
+  have hdel : ∀ (i : Nat) (qs : List (Nat × EvType)),
+      commitActionRuns (deliver fl i qs) = [] ∧ txCompleteRuns (deliver fl i qs) = [] := by
+    intro i qs
+    induction qs with
+    | nil => exact ⟨rfl, rfl⟩
+    | cons p rest ih =>
+      obtain ⟨s, t⟩ := p
+      simp only [deliver]
+      split
+      · simpa [commitActionRuns, txCompleteRuns] using ih
+      · exact ih
+  induction ps with
+  | nil => exact ⟨rfl, rfl⟩
+  | cons p rest ih =>
+    obtain ⟨i, r⟩ := p
+    cases r with
+    | listener st types =>
+      simp only [postCommit, commitActionRuns_append, txCompleteRuns_append, (hdel i _).1, (hdel i _).2, List.nil_append]
+      exact ih
+    | constraint ty vs => simpa [postCommit, commitActionRuns, txCompleteRuns] using ih
+
+/-- **C08, commit actions and transaction-complete listeners run once per committed transaction**:
+    one goroutine runs the commit actions of the transaction's context (each as often as it is
+    registered on the context, in order); with Db.Update every tx-complete listener runs exactly once
+    (Db.Batch has none). -/
+theorem commit_actions_once (env : Env) (h : FromCode env) (db : Db) (prevCtx : Ctx) (tx : TxSpec)
+    (hw : tx.wellBehaved) (hok : (runTx env db prevCtx tx).res = .ok) :
+    commitActionRuns (runTx env db prevCtx tx).fired = [(runTx env db prevCtx tx).ctx.commitActions] ∧
+    txCompleteRuns (runTx env db prevCtx tx).fired =
+      (if tx.mode = .update then List.range env.txListeners else []) := by
+  have ha := runTx_agree env h.expected db prevCtx tx hw
+  rw [ha.fired_ok hok, ha.ctx]
+  unfold commitList
+  rw [commitActionRuns_append, commitActionRuns_append, txCompleteRuns_append, txCompleteRuns_append]
+  have hmid : ∀ flows : List Flow,
+      commitActionRuns (flows.flatMap fun fl => postCommit fl (indexed (env.regs fl.store))) = [] ∧
+      txCompleteRuns (flows.flatMap fun fl => postCommit fl (indexed (env.regs fl.store))) = [] := by
+    intro flows
+    induction flows with
+    | nil => exact ⟨rfl, rfl⟩
+    | cons fl rest ih =>
+      simp only [List.flatMap_cons, commitActionRuns_append, txCompleteRuns_append,
+        (postCommit_no_actions fl _).1, (postCommit_no_actions fl _).2, List.nil_append]
+      exact ih
+  have htail : ∀ l : List Nat, commitActionRuns (l.map Fired.txComplete) = [] ∧ txCompleteRuns (l.map Fired.txComplete) = l := by
+    intro l
+    induction l with
+    | nil => exact ⟨rfl, rfl⟩
+    | cons a t ih => simp [commitActionRuns, txCompleteRuns, ih]
+  rw [(hmid _).1, (hmid _).2]
+  cases hm : tx.mode with
+  | update => simp [commitActionRuns, txCompleteRuns, (htail _).1, (htail _).2]
+  | batch => simp [commitActionRuns, txCompleteRuns]
+
+-- non-vacuity: a committed transaction deleting an entity with child data (a parent and a child flow),
+-- a listener registered for [deleted, deletedAsync] on the parent store
+example :
+    (runTx { regsP := [.listener .untyped [⟨.deleted, false⟩, ⟨.deleted, true⟩]], regsC := [], txListeners := 1, t := Generated.crudReturns }
+      [("c1", { f := ⟨"n", [], none⟩, child := some "k" })] Ctx.empty
+      { mode := .update, reuseCtx := false, body := [.op (.delete .C "c1") .none false] }).res = .ok := by
+  decide
+
+end StorageModel.Properties.C08
